@@ -516,11 +516,8 @@ def find_odf_length(target):
     from sharepoint2text.parsing.extractors import data_types as dt
     for s in LENGTHS:
         try:
-            if "_odf_length_to_px" in target:
-                dt._odf_length_to_px(s)
-            else:
-                dt.OpenDocumentImage(width=s).get_metadata()
-                dt.OpenDocumentImage(height=s).get_metadata()
+            dt.OpenDocumentImage(width=s).get_metadata()
+            dt.OpenDocumentImage(height=s).get_metadata()
         except Exception as e:  # noqa
             # end-to-end: an ODT whose frame carries that width
             e2e = odt_with_width(s)
@@ -810,7 +807,7 @@ def find(req):
         return find_image(ob.split("::")[1].split(".")[0])
     if "populate_from_path" in ob or "path-fields-default" in ob:
         return find_path()
-    if "_odf_length_to_px" in ob or "OpenDocumentImage.get_metadata" in ob:
+    if "_odf_length_to_px" in ob or "length-helper" in ob or "OpenDocumentImage.get_metadata" in ob:
         return find_odf_length(ob.split("::")[1].split("/")[0])
     if "/metadata-copied" in ob or "metadata#" in ob:
         return find_metadata(ob)
